@@ -30,6 +30,29 @@ def execStartValue (program : String) (args : List String) : String :=
 def environmentLine (var val : String) : String :=
   "Environment=\"" ++ var ++ "=" ++ val ++ "\""
 
+/-! ### Rust format strings (`"ExecStart={program} {args}"`): literal pieces and `{name}` holes -/
+
+inductive Piece where
+  | lit (s : String)
+  | hole (name : String)
+  deriving DecidableEq, Repr
+
+/-- `cur` = the piece under construction (reversed); `inHole` = between `{` and `}` -/
+def fmtGo : List Char → List Char → Bool → List Piece
+  | [], cur, _ => if cur.isEmpty then [] else [.lit (String.ofList cur.reverse)]
+  | c :: cs, cur, false =>
+    if c == '{' then (if cur.isEmpty then [] else [Piece.lit (String.ofList cur.reverse)]) ++ fmtGo cs [] true
+    else fmtGo cs (c :: cur) false
+  | c :: cs, cur, true =>
+    if c == '}' then Piece.hole (String.ofList cur.reverse) :: fmtGo cs [] false
+    else fmtGo cs (c :: cur) true
+
+def fmtPieces (fmt : String) : List Piece := fmtGo fmt.toList [] false
+
+/-- the formatted text: every hole replaced by what `env` gives for its name, nothing else touched -/
+def fmtApply (pieces : List Piece) (env : String → String) : String :=
+  pieces.foldl (fun acc pc => acc ++ (match pc with | .lit s => s | .hole n => env n)) ""
+
 def isWs (c : Char) : Bool := c == ' ' || c == '\t' || c == '\n' || c == '\r'
 
 /-- a character systemd passes through unchanged wherever it stands in a command line -/
